@@ -34,7 +34,7 @@ from harness.common import Ctx, Disagreement, Failure
 
 THEOREM_MODULES = ['ExaModel.Props.C12']
 DRIVERS = ['drv_timer']
-TABLES = ['timer']
+TABLES = ['timer', 'pytimer']
 PROP = 'C12'
 ASSUMPTIONS = [
     'the negotiated hold time is 0 or in 3..65535 (C07; `HoldTime.MIN`); the class-level correspondence also covers 1 and 2',
